@@ -209,6 +209,10 @@ type lox struct {
 
 	_qla    int
 	_qlasym any
+
+	// _recovering is true from the moment _recover succeeds until the next input
+	// token is shifted.
+	_recovering bool
 }
 
 func (p *parser) parse(lex _Lexer) bool {
@@ -235,6 +239,9 @@ func (p *parser) parse(lex _Lexer) bool {
 			latok, ok := p._lasym.(Token)
 			if !ok {
 				latok = p._lasym.(Error).Token
+			}
+			if p._la != ERROR {
+				p._recovering = false
 			}
 			p._stack.Push(_item{
 				State: action,
@@ -323,6 +330,19 @@ func (p *parser) _recover() bool {
 		p._readToken()
 	}
 
+	// If no input token has been shifted since the previous recovery, recovering
+	// again with the same lookahead would repeat the same steps forever. Make
+	// progress by discarding the lookahead.
+	if p._recovering {
+		if p._la == EOF {
+			return false
+		}
+		p._readToken()
+		for p._la == ERROR {
+			p._readToken()
+		}
+	}
+
 	for {
 		save := p._stack
 
@@ -362,6 +382,7 @@ func (p *parser) _recover() bool {
 				p._qlasym = p._lasym
 				p._la = ERROR
 				p._lasym = errSym
+				p._recovering = true
 				return true
 			}
 
